@@ -18,7 +18,7 @@ func init() {
 	register(&run.Check{
 		ID:    "C19",
 		Level: "model_checking",
-		Rule: "bounded-exhaustive, per exported matcher: every string of length <=L (L per matcher, 4..6) over that matcher's own alphabet plus the HTML-significant characters < > \" = ` NUL BEL ; & U+00A0 U+FF1C, " +
+		Rule: "bounded-exhaustive, per exported matcher: every string of length <=L (L per matcher, 4..6) over that matcher's own alphabet plus the HTML-significant characters < > \" = ` NUL BEL ; & U+00A0 U+FF1C, a line feed, three non-ASCII numerals (U+00B2, U+0661, U+2167) and U+017F, " +
 			"and every single and double character substitution / insertion / deletion (over the same alphabet) of every documented example (for ISO8601 each of the six documented shapes and their space / Z / offset variants). " +
 			"Oracle: MatchString(s) implies that a hand-written recogniser of the documented form accepts s (hence every character of s is in the documented alphabet); every documented example is accepted. " +
 			"non-trivial = strings on which matcher and recogniser both answer yes, plus strings that differ from an accepted one by a single edit and are rejected.",
@@ -38,7 +38,7 @@ type matcherSpec struct {
 	maxLen   int
 }
 
-const hostileChars = "<>\"=`\x00\x07;&\u00a0\uff1c"
+const hostileChars = "<>\"=`\x00\x07;&\u00a0\uff1c\n\u00b2\u0661\u2167\u017f"
 
 func kwRecog(words ...string) func(string) bool {
 	return func(s string) bool {
@@ -249,6 +249,12 @@ func runC19(c *run.Ctx) {
 			got := re.MatchString(s)
 			want := m.recog(s)
 			switch {
+			case got && !want && m.recog(strings.NewReplacer("\u017f", "s", "\u212a", "k").Replace(s)):
+				// (?i) in Go folds U+017F (long s) onto s and U+212A (Kelvin sign) onto k: the only way in which
+				// this string leaves the documented form. Own signature, so that any other wrong acceptance by
+				// the same matcher is still reported.
+				c.Violate("accepts|"+m.name+"|unicode-case-fold", fmt.Sprintf("%s matches %s: (?i) folds a non-ASCII letter onto an ASCII one", m.name, run.Q(s)), map[string]string{"matcher": m.name, "s_b64": run.B64([]byte(s)), "s": run.Q(s)})
+				c.Outcome("known-class|unicode-case-fold|" + m.name)
 			case got && !want:
 				c.Violate("accepts|"+m.name, fmt.Sprintf("%s matches %s, which is not of the documented form", m.name, run.Q(s)), map[string]string{"matcher": m.name, "s_b64": run.B64([]byte(s)), "s": run.Q(s)})
 				c.Outcome("violation|accepts|" + m.name)
